@@ -889,7 +889,12 @@ def _as_problem(spec, surfaces, flight, n_points=1, compressible=False, rotation
         prob.model.add_subsystem("fuel_vol_delta", WingboxFuelVolDelta(surface=s0))
         prob.model.connect(s0["name"] + ".struct_setup.fuel_vols", "fuel_vol_delta.fuel_vols")
         prob.model.connect("AS_point_0.fuelburn", "fuel_vol_delta.fuelburn")
-        comp = om.ExecComp("fuel_diff = (fuel_mass - fuelburn) / fuelburn", units="kg")
+        # The documented example writes (fuel_mass - fuelburn) / fuelburn. ExecComp differentiates by complex step, and in
+        # that form d/d fuelburn is the difference of two nearly equal terms when fuel_mass << fuelburn (relative round-off
+        # eps * fuelburn / fuel_mass: 3e-6 at the "tanks almost empty" points of this zoo) - noise of the user's own
+        # expression, which a thorough run duly reported as a history effect (DESIGN 12.8 addendum 4). Same function,
+        # well-conditioned form:
+        comp = om.ExecComp("fuel_diff = fuel_mass / fuelburn - 1.0", units="kg")
         prob.model.add_subsystem("fuel_diff", comp, promotes_inputs=["fuel_mass"], promotes_outputs=["fuel_diff"])
         prob.model.connect("AS_point_0.fuelburn", "fuel_diff.fuelburn")
     _setup(prob, spec, driver)
